@@ -182,6 +182,17 @@ func mRunCmd(fr *frame, a []value) (value, bool) {
 	setGlobal("Stdin", st.stdin)
 	setGlobal("Stdout", st.stdout)
 	setGlobal("Stderr", st.stderr)
+	// a fresh process: the command's own package variables are zeroed and
+	// its initialisers run again (imported packages keep their state: their
+	// init guards are set)
+	for _, mem := range mainPkg.Members {
+		if g, ok := mem.(*ssa.Global); ok {
+			*i.globals[g] = zero(mustDeref(g.Type()))
+		}
+	}
+	if initFn := mainPkg.Func("init"); initFn != nil {
+		call(i, fr, 0, initFn, nil)
+	}
 	cur.inInit = false
 	status := 0
 	func() {
